@@ -2,6 +2,7 @@ package indexes
 
 import (
 	"context"
+	"errors"
 	"fmt"
 	"io"
 	"os"
@@ -187,6 +188,11 @@ func (r *SlotToCid_Reader) Get(slot uint64) (cid.Cid, error) {
 		key := Uint64tob(slot)
 		value, err := r.deprecatedIndex.Lookup(key)
 		if err != nil {
+			if errors.Is(err, compactindex36.ErrNotFound) {
+				// Callers recognise a missing key by compactindexsized.ErrNotFound; the deprecated
+				// format has an error value of its own, which they took for an internal error.
+				return cid.Undef, compactindexsized.ErrNotFound
+			}
 			return cid.Undef, err
 		}
 		_, c, err := cid.CidFromBytes(value[:])
